@@ -38,7 +38,6 @@ structure WF (n : SNode) : Prop where
   lower : ∀ b, n.lower = some b → isLower b.op = true
   upper : ∀ b, n.upper = some b → isUpper b.op = true
   sub : ∀ b ∈ n.bounds, Kind.sub n.kind b.kind
-  small : ∀ b ∈ n.bounds, b.small = true
   scalar : ∀ s, n.scalar = some s → ∀ i, Nat.testBit n.kind i = true → i = s.kindBit
   nonbot : n.err = false → n.kind ≠ 0
 
@@ -47,7 +46,7 @@ theorem WF.admits {n : SNode} (h : WF n) {v : Atom} (hk : Kind.has n.kind v = tr
   rw [← kind_has_admits]; exact h.sub b hb v hk
 
 theorem wf_top : WF SNode.top := by
-  refine ⟨?_, ?_, ?_, ?_, ?_, ?_⟩ <;> intros <;> simp_all [SNode.top, SNode.bounds, Kind.top]
+  refine ⟨?_, ?_, ?_, ?_, ?_⟩ <;> intros <;> simp_all [SNode.top, SNode.bounds, Kind.top]
 
 theorem den_top (re : Bytes → Bytes → Bool) (v : Atom) : den re SNode.top v := by
   refine ⟨rfl, top_has v, ?_, ?_, ?_, ?_⟩
@@ -73,7 +72,7 @@ theorem updateKind_spec (n : SNode) (k : Kind) (hk : k ≠ 0) :
     · right; simp [h0, hk, h1, Kind.bottom]
 
 theorem wf_shrink (n : SNode) (k : Kind) (h : WF n) (hne : n.kind &&& k ≠ 0) : WF (shrink n k) := by
-  refine ⟨h.lower, h.upper, ?_, h.small, ?_, fun _ => hne⟩
+  refine ⟨h.lower, h.upper, ?_, ?_, fun _ => hne⟩
   · intro b hb; exact Kind.sub_trans (Kind.sub_and_left _ _) (h.sub b hb)
   · intro s hs i hi
     simp only [shrink, Nat.testBit_and, Bool.and_eq_true] at hi
@@ -104,7 +103,7 @@ theorem insert_shape (re : Bytes → Bytes → Bool) (n : SNode) (k : Kind) (g :
       intro h; have := h.2.1; rw [h0, Kind.has_zero] at this; cases this
     exact ⟨fun h => absurd h this, fun h => absurd h.1 this⟩
   · simp only [Bool.not_false, if_true]
-    refine ⟨⟨hwf.lower, hwf.upper, ?_, hwf.small, ?_, ?_⟩, fun v => ?_⟩
+    refine ⟨⟨hwf.lower, hwf.upper, ?_, ?_, ?_⟩, fun v => ?_⟩
     · intro b _ w hw; rw [Kind.has_zero] at hw; cases hw
     · intro s _ i hi; simp only [Nat.zero_testBit] at hi; cases hi
     · intro h; cases h
@@ -130,13 +129,11 @@ theorem recheck_spec (re : Bytes → Bytes → Bool) (n : SNode) (hwf : WF n) :
   · rename_i l u hl hu
     split
     · rename_i herr
-      refine ⟨⟨?_, ?_, ?_, ?_, hwf.scalar, ?_⟩, fun v => ?_⟩
+      refine ⟨⟨?_, ?_, ?_, hwf.scalar, ?_⟩, fun v => ?_⟩
       · intro b hb; cases hb
       · intro b hb; cases hb
       · intro b hb
         exact hwf.sub b ((mem_bounds n b).2 (Or.inr (Or.inr (by simpa [SNode.bounds] using hb))))
-      · intro b hb
-        exact hwf.small b ((mem_bounds n b).2 (Or.inr (Or.inr (by simpa [SNode.bounds] using hb))))
       · intro h; cases h
       · constructor
         · intro h; cases h.1
@@ -145,7 +142,6 @@ theorem recheck_spec (re : Bytes → Bytes → Bool) (n : SNode) (hwf : WF n) :
           have hl' : l ∈ n.bounds := (mem_bounds n l).2 (Or.inl hl)
           have hu' : u ∈ n.bounds := (mem_bounds n u).2 (Or.inr (Or.inl hu))
           have hs := simplify_sound re n.kind l u v (hwf.admits h.2.1 hl') (hwf.admits h.2.1 hu') h.2.1
-            (hwf.small l hl') (hwf.small u hu')
           rw [herr] at hs
           exact hs ⟨den_bounds h hl', den_bounds h hu'⟩
     · exact ⟨hwf, fun v => Iff.rfl⟩
@@ -177,30 +173,25 @@ theorem same_XY_of_upper (re : Bytes → Bytes → Bool) (k : Kind) (x y : Bound
     exact ite_XY _
 
 theorem slotLower_spec (re : Bytes → Bytes → Bool) (n : SNode) (x : Bound) (hwf : WF n)
-    (hx : isLower x.op = true) (hsub : Kind.sub n.kind x.kind) (hs : x.small = true) :
+    (hx : isLower x.op = true) (hsub : Kind.sub n.kind x.kind) :
     WF (slotLower re n x) ∧
     ∀ v, (den re (slotLower re n x) v ↔ den re n v ∧ boundHolds re x v = true) := by
   have hadx : ∀ v, Kind.has n.kind v = true → boundAdmits x v = true := by
     intro v hv; rw [← kind_has_admits]; exact hsub v hv
   have replWF : WF { n with lower := some x } := by
-    refine ⟨?_, hwf.upper, ?_, ?_, hwf.scalar, hwf.nonbot⟩
+    refine ⟨?_, hwf.upper, ?_, hwf.scalar, hwf.nonbot⟩
     · intro b hb; cases hb; exact hx
     · intro b hb
       rcases (mem_bounds _ b).1 hb with h | h | h
       · cases h; exact hsub
       · exact hwf.sub b (mem_upper h)
       · exact hwf.sub b (mem_checks h)
-    · intro b hb
-      rcases (mem_bounds _ b).1 hb with h | h | h
-      · cases h; exact hs
-      · exact hwf.small b (mem_upper h)
-      · exact hwf.small b (mem_checks h)
   unfold slotLower
   split
   · rename_i y hy
     have hyb : y ∈ n.bounds := mem_lower hy
     have hsound := fun v (hv : Kind.has n.kind v = true) =>
-      simplify_sound re n.kind x y v (hadx v hv) (hwf.admits hv hyb) hv hs (hwf.small y hyb)
+      simplify_sound re n.kind x y v (hadx v hv) (hwf.admits hv hyb) hv
     split
     · rename_i hk
       have hk' : simplifyBounds re n.kind x y = .keepY := by simpa using hk
@@ -235,30 +226,25 @@ theorem slotLower_spec (re : Bytes → Bytes → Bool) (n : SNode) (x : Bound) (
       exact ⟨h1, h2, h3, (fun b hb => by cases hb; exact h4), h5, h6⟩
 
 theorem slotUpper_spec (re : Bytes → Bytes → Bool) (n : SNode) (x : Bound) (hwf : WF n)
-    (hx : isUpper x.op = true) (hsub : Kind.sub n.kind x.kind) (hs : x.small = true) :
+    (hx : isUpper x.op = true) (hsub : Kind.sub n.kind x.kind) :
     WF (slotUpper re n x) ∧
     ∀ v, (den re (slotUpper re n x) v ↔ den re n v ∧ boundHolds re x v = true) := by
   have hadx : ∀ v, Kind.has n.kind v = true → boundAdmits x v = true := by
     intro v hv; rw [← kind_has_admits]; exact hsub v hv
   have replWF : WF { n with upper := some x } := by
-    refine ⟨hwf.lower, ?_, ?_, ?_, hwf.scalar, hwf.nonbot⟩
+    refine ⟨hwf.lower, ?_, ?_, hwf.scalar, hwf.nonbot⟩
     · intro b hb; cases hb; exact hx
     · intro b hb
       rcases (mem_bounds _ b).1 hb with h | h | h
       · exact hwf.sub b (mem_lower h)
       · cases h; exact hsub
       · exact hwf.sub b (mem_checks h)
-    · intro b hb
-      rcases (mem_bounds _ b).1 hb with h | h | h
-      · exact hwf.small b (mem_lower h)
-      · cases h; exact hs
-      · exact hwf.small b (mem_checks h)
   unfold slotUpper
   split
   · rename_i y hy
     have hyb : y ∈ n.bounds := mem_upper hy
     have hsound := fun v (hv : Kind.has n.kind v = true) =>
-      simplify_sound re n.kind x y v (hadx v hv) (hwf.admits hv hyb) hv hs (hwf.small y hyb)
+      simplify_sound re n.kind x y v (hadx v hv) (hwf.admits hv hyb) hv
     split
     · rename_i hk
       have hk' : simplifyBounds re n.kind x y = .keepY := by simpa using hk
@@ -309,8 +295,8 @@ theorem insertCheck_subset (re : Bytes → Bytes → Bool) (k : Kind) (x : Bound
       · exact List.mem_cons_of_mem _ (ih b h)
 
 theorem insertCheck_spec (re : Bytes → Bytes → Bool) (k : Kind) (x : Bound) (v : Atom)
-    (hk : Kind.has k v = true) (hax : boundAdmits x v = true) (sx : x.small = true)
-    (ys : List Bound) (hys : ∀ y ∈ ys, boundAdmits y v = true ∧ y.small = true) :
+    (hk : Kind.has k v = true) (hax : boundAdmits x v = true)
+    (ys : List Bound) (hys : ∀ y ∈ ys, boundAdmits y v = true) :
     ((∀ b ∈ (insertCheck re k x ys).1, boundHolds re b v = true) → boundHolds re x v = true →
       ∀ b ∈ ys, boundHolds re b v = true) ∧
     ((insertCheck re k x ys).2 = true → (∀ b ∈ (insertCheck re k x ys).1, boundHolds re b v = true) →
@@ -320,7 +306,7 @@ theorem insertCheck_spec (re : Bytes → Bytes → Bool) (k : Kind) (x : Bound) 
   | cons y ys ih =>
     have ih' := ih (fun b hb => hys b (List.mem_cons_of_mem _ hb))
     have hy := hys y List.mem_cons_self
-    have hsound := simplify_sound re k x y v hax hy.1 hk sx hy.2
+    have hsound := simplify_sound re k x y v hax hy hk
     unfold insertCheck
     cases hs : simplifyBounds re k x y <;> rw [hs] at hsound <;> simp only at hsound ⊢
     · -- keepX: y is deleted
@@ -350,7 +336,7 @@ theorem insertCheck_spec (re : Bytes → Bytes → Bool) (k : Kind) (x : Bound) 
       · intro hm hr; exact ih'.2 hm (fun b hb => hr b (List.mem_cons_of_mem _ hb))
 
 theorem addCheck_spec (re : Bytes → Bytes → Bool) (n : SNode) (x : Bound) (hwf : WF n)
-    (hsub : Kind.sub n.kind x.kind) (hs : x.small = true) :
+    (hsub : Kind.sub n.kind x.kind) :
     WF (addCheck re n x) ∧
     ∀ v, (den re (addCheck re n x) v ↔ den re n v ∧ boundHolds re x v = true) := by
   have hsubset := insertCheck_subset re n.kind x n.checks
@@ -363,7 +349,7 @@ theorem addCheck_spec (re : Bytes → Bytes → Bool) (n : SNode) (x : Bound) (h
     · rcases List.mem_append.1 hb with h | h
       · exact Or.inl (hsubset b h)
       · exact Or.inr (by simpa using h)
-  refine ⟨⟨hwf.lower, hwf.upper, ?_, ?_, hwf.scalar, hwf.nonbot⟩, fun v => ?_⟩
+  refine ⟨⟨hwf.lower, hwf.upper, ?_, hwf.scalar, hwf.nonbot⟩, fun v => ?_⟩
   · intro b hb
     rcases (mem_bounds _ b).1 hb with h | h | h
     · exact hwf.sub b (mem_lower h)
@@ -371,22 +357,15 @@ theorem addCheck_spec (re : Bytes → Bytes → Bool) (n : SNode) (x : Bound) (h
     · rcases hmem b h with h' | h'
       · exact hwf.sub b (mem_checks h')
       · rw [h']; exact hsub
-  · intro b hb
-    rcases (mem_bounds _ b).1 hb with h | h | h
-    · exact hwf.small b (mem_lower h)
-    · exact hwf.small b (mem_upper h)
-    · rcases hmem b h with h' | h'
-      · exact hwf.small b (mem_checks h')
-      · rw [h']; exact hs
   · -- denotation
     have key : Kind.has n.kind v = true →
         ((∀ b ∈ (addCheck re n x).checks, boundHolds re b v = true) ↔
           (∀ b ∈ n.checks, boundHolds re b v = true) ∧ boundHolds re x v = true) := by
       intro hk
       have hax : boundAdmits x v = true := by rw [← kind_has_admits]; exact hsub v hk
-      have hys : ∀ y ∈ n.checks, boundAdmits y v = true ∧ y.small = true :=
-        fun y hy => ⟨hwf.admits hk (mem_checks hy), hwf.small y (mem_checks hy)⟩
-      have sp := insertCheck_spec re n.kind x v hk hax hs n.checks hys
+      have hys : ∀ y ∈ n.checks, boundAdmits y v = true :=
+        fun y hy => hwf.admits hk (mem_checks hy)
+      have sp := insertCheck_spec re n.kind x v hk hax n.checks hys
       unfold addCheck
       simp only
       split
@@ -416,19 +395,19 @@ theorem addCheck_spec (re : Bytes → Bytes → Bool) (n : SNode) (x : Bound) (h
 /-! ### one conjunct -/
 
 theorem placeBound_spec (re : Bytes → Bytes → Bool) (n : SNode) (x : Bound) (hwf : WF n)
-    (hsub : Kind.sub n.kind x.kind) (hs : x.small = true) :
+    (hsub : Kind.sub n.kind x.kind) :
     WF (placeBound re n x) ∧
     ∀ v, (den re (placeBound re n x) v ↔ den re n v ∧ boundHolds re x v = true) := by
   have lower : isLower x.op = true → WF (recheck re (slotLower re n x)) ∧
       ∀ v, (den re (recheck re (slotLower re n x)) v ↔ den re n v ∧ boundHolds re x v = true) := by
     intro hx
-    obtain ⟨w, d⟩ := slotLower_spec re n x hwf hx hsub hs
+    obtain ⟨w, d⟩ := slotLower_spec re n x hwf hx hsub
     obtain ⟨w', d'⟩ := recheck_spec re _ w
     exact ⟨w', fun v => (d' v).trans (d v)⟩
   have upper : isUpper x.op = true → WF (recheck re (slotUpper re n x)) ∧
       ∀ v, (den re (recheck re (slotUpper re n x)) v ↔ den re n v ∧ boundHolds re x v = true) := by
     intro hx
-    obtain ⟨w, d⟩ := slotUpper_spec re n x hwf hx hsub hs
+    obtain ⟨w, d⟩ := slotUpper_spec re n x hwf hx hsub
     obtain ⟨w', d'⟩ := recheck_spec re _ w
     exact ⟨w', fun v => (d' v).trans (d v)⟩
   unfold placeBound
@@ -437,7 +416,7 @@ theorem placeBound_spec (re : Bytes → Bytes → Bool) (n : SNode) (x : Bound) 
   · rename_i h; exact lower (by rw [h]; rfl)
   · rename_i h; exact upper (by rw [h]; rfl)
   · rename_i h; exact upper (by rw [h]; rfl)
-  · exact addCheck_spec re n x hwf hsub hs
+  · exact addCheck_spec re n x hwf hsub
 
 theorem not_wellTyped_unsat (re : Bytes → Bytes → Bool) (x : Bound) (v : Atom)
     (h : x.wellTyped = false) : satBound re v x = false := by
@@ -445,8 +424,7 @@ theorem not_wellTyped_unsat (re : Bytes → Bytes → Bool) (x : Bound) (v : Ato
   cases a <;> simp [Bound.wellTyped] at h <;> cases op <;> simp at h <;> cases v <;>
     simp [satBound, boundAdmits, boundHolds, ordCmp, Atom.num?, Atom.isNull, Atom.sameKind, Atom.kindBit]
 
-theorem insertBound_spec (re : Bytes → Bytes → Bool) (n : SNode) (x : Bound) (hwf : WF n)
-    (hs : x.small = true) :
+theorem insertBound_spec (re : Bytes → Bytes → Bool) (n : SNode) (x : Bound) (hwf : WF n) :
     WF (insertBound re n x) ∧
     ∀ v, (den re (insertBound re n x) v ↔ den re n v ∧ satBound re v x = true) := by
   unfold insertBound
@@ -459,7 +437,7 @@ theorem insertBound_spec (re : Bytes → Bytes → Bool) (n : SNode) (x : Bound)
       simp only [satBound, Bool.and_eq_true] at hv; exact hv.1
     · intro n1 w1 hk1
       have hsub : Kind.sub n1.kind x.kind := by rw [hk1]; exact Kind.sub_and_right _ _
-      obtain ⟨w, d⟩ := placeBound_spec re n1 x w1 hsub hs
+      obtain ⟨w, d⟩ := placeBound_spec re n1 x w1 hsub
       refine ⟨w, fun v => ?_⟩
       rw [d v]
       constructor
@@ -472,7 +450,7 @@ theorem insertBound_spec (re : Bytes → Bytes → Bool) (n : SNode) (x : Bound)
         simp only [satBound, Bool.and_eq_true] at h2; exact ⟨h1, h2.2⟩
   · have hw' : x.wellTyped = false := by simpa using hw
     simp only [hw', Bool.not_false, if_true]
-    refine ⟨⟨hwf.lower, hwf.upper, hwf.sub, hwf.small, hwf.scalar, ?_⟩, fun v => ?_⟩
+    refine ⟨⟨hwf.lower, hwf.upper, hwf.sub, hwf.scalar, ?_⟩, fun v => ?_⟩
     · intro h; cases h
     · constructor
       · intro h; cases h.1
@@ -501,7 +479,7 @@ theorem placeAtom_spec (re : Bytes → Bytes → Bool) (n : SNode) (a : Atom) (h
       exact eqv_trans v y a hvy.2 he'
     · rename_i he
       have w1 : WF { n with err := true } :=
-        ⟨hwf.lower, hwf.upper, hwf.sub, hwf.small, hwf.scalar, fun h => by cases h⟩
+        ⟨hwf.lower, hwf.upper, hwf.sub, hwf.scalar, fun h => by cases h⟩
       obtain ⟨w', d'⟩ := recheck_spec re _ w1
       refine ⟨w', fun v => (d' v).trans ⟨(fun h => by cases h.1), ?_⟩⟩
       rintro ⟨h, hva⟩
@@ -513,7 +491,7 @@ theorem placeAtom_spec (re : Bytes → Bytes → Bool) (n : SNode) (a : Atom) (h
       exact eqv_trans a v y this hvy.2
   · rename_i hnone
     have w1 : WF { n with scalar := some a } := by
-      refine ⟨hwf.lower, hwf.upper, hwf.sub, hwf.small, ?_, hwf.nonbot⟩
+      refine ⟨hwf.lower, hwf.upper, hwf.sub, ?_, hwf.nonbot⟩
       intro s hs; cases hs; exact hbits
     obtain ⟨w', d'⟩ := recheck_spec re _ w1
     refine ⟨w', fun v => (d' v).trans ?_⟩
@@ -558,14 +536,15 @@ def Constraint.isBasic : Constraint → Bool
   | .range _ => false
   | _ => true
 
+theorem btype_kind_ne_zero (t : BType) : t.kind ≠ 0 := by cases t <;> decide
+
 theorem insertBasic_spec (re : Bytes → Bytes → Bool) (n : SNode) (c : Constraint) (hwf : WF n)
-    (hb : c.isBasic = true) (hr : c.regular = true) :
+    (hb : c.isBasic = true) :
     WF (insertBasic re n c) ∧ ∀ v, (den re (insertBasic re n c) v ↔ den re n v ∧ sat re v c = true) := by
   cases c with
   | atom a => exact insertAtom_spec re n a hwf
-  | type k =>
-    exact insertType_spec re n k hwf (by simpa [Constraint.regular] using hr)
-  | bound b => exact insertBound_spec re n b hwf hr
+  | type t => exact insertType_spec re n t.kind hwf (btype_kind_ne_zero t)
+  | bound b => exact insertBound_spec re n b hwf
   | range r => cases hb
 
 theorem foldl_spec (re : Bytes → Bytes → Bool) (f : SNode → Constraint → SNode)
@@ -593,7 +572,7 @@ theorem foldl_spec (re : Bytes → Bytes → Bool) (f : SNode → Constraint →
 
 /-! ### predeclared ranges -/
 
-theorem expand_ok (r : Range) : ∀ c ∈ r.expand, c.isBasic = true ∧ c.regular = true := by
+theorem expand_ok (r : Range) : ∀ c ∈ r.expand, c.isBasic = true := by
   cases r <;> decide
 
 theorem isNum_eq (v : Atom) : v.isNum = v.num?.isSome := by cases v <;> rfl
@@ -639,7 +618,7 @@ theorem sat_range (re : Bytes → Bytes → Bool) (r : Range) (v : Atom) :
     simp only [List.cons_append, List.nil_append, List.forall_mem_cons]
     cases v with
     | int z =>
-      have h1 : sat re (.int z) (.type Kind.int) = true := (by decide : Nat.testBit 4 2 = true)
+      have h1 : sat re (.int z) (.type .int) = true := (by decide : Nat.testBit 4 2 = true)
       have h2 : sat re (.int z) (.bound ⟨.ge, .int lo⟩) = decide (lo ≤ z) := by
         rw [sat_ge_num re (.int z) (.int lo) (Dec.ofInt z) (Dec.ofInt lo) rfl rfl, Dec.cmp_ofInt_ofInt, Bool.eq_iff_iff]
         simp only [decide_eq_true_eq]; exact Int.isLE_compare
@@ -652,41 +631,40 @@ theorem sat_range (re : Bytes → Bytes → Bool) (r : Range) (v : Atom) :
           simp only [decide_eq_true_eq]; exact Int.isLE_compare
         simp [h3]
     | null =>
-      have h1 : sat re Atom.null (.type Kind.int) = false := (by decide : Nat.testBit 4 0 = false)
+      have h1 : sat re Atom.null (.type .int) = false := (by decide : Nat.testBit 4 0 = false)
       simp [h1]
     | bool b =>
-      have h1 : sat re (Atom.bool b) (.type Kind.int) = false := (by decide : Nat.testBit 4 1 = false)
+      have h1 : sat re (Atom.bool b) (.type .int) = false := (by decide : Nat.testBit 4 1 = false)
       simp [h1]
     | float d =>
-      have h1 : sat re (Atom.float d) (.type Kind.int) = false := (by decide : Nat.testBit 4 3 = false)
+      have h1 : sat re (Atom.float d) (.type .int) = false := (by decide : Nat.testBit 4 3 = false)
       simp [h1]
     | str s =>
-      have h1 : sat re (Atom.str s) (.type Kind.int) = false := (by decide : Nat.testBit 4 4 = false)
+      have h1 : sat re (Atom.str s) (.type .int) = false := (by decide : Nat.testBit 4 4 = false)
       simp [h1]
     | bytes s =>
-      have h1 : sat re (Atom.bytes s) (.type Kind.int) = false := (by decide : Nat.testBit 4 5 = false)
+      have h1 : sat re (Atom.bytes s) (.type .int) = false := (by decide : Nat.testBit 4 5 = false)
       simp [h1]
 
-theorem insert_spec (re : Bytes → Bytes → Bool) (n : SNode) (c : Constraint) (hwf : WF n)
-    (hr : c.regular = true) :
+theorem insert_spec (re : Bytes → Bytes → Bool) (n : SNode) (c : Constraint) (hwf : WF n) :
     WF (insert re n c) ∧ ∀ v, (den re (insert re n c) v ↔ den re n v ∧ sat re v c = true) := by
   cases c with
   | range r =>
-    have := foldl_spec re (insertBasic re) (fun c => c.isBasic = true ∧ c.regular = true)
-      (fun n c w h => insertBasic_spec re n c w h.1 h.2) r.expand n hwf (expand_ok r)
+    have := foldl_spec re (insertBasic re) (fun c => c.isBasic = true)
+      (fun n c w h => insertBasic_spec re n c w h) r.expand n hwf (expand_ok r)
     refine ⟨this.1, fun v => ?_⟩
     show den re (r.expand.foldl (insertBasic re) n) v ↔ _
     rw [this.2 v, sat_range]
-  | atom a => exact insertBasic_spec re n (.atom a) hwf rfl hr
-  | type k => exact insertBasic_spec re n (.type k) hwf rfl hr
-  | bound b => exact insertBasic_spec re n (.bound b) hwf rfl hr
+  | atom a => exact insertBasic_spec re n (.atom a) hwf rfl
+  | type t => exact insertBasic_spec re n (.type t) hwf rfl
+  | bound b => exact insertBasic_spec re n (.bound b) hwf rfl
 
 /-- The node after inserting all conjuncts admits exactly the atoms satisfying all of them. -/
-theorem fold_den (re : Bytes → Bytes → Bool) (cs : List Constraint) (hreg : Regular cs) :
+theorem fold_den (re : Bytes → Bytes → Bool) (cs : List Constraint) :
     WF (cs.foldl (insert re) SNode.top) ∧
     ∀ v, (den re (cs.foldl (insert re) SNode.top) v ↔ Sat re cs v) := by
-  have := foldl_spec re (insert re) (fun c => c.regular = true)
-    (fun n c w h => insert_spec re n c w h) cs SNode.top wf_top hreg
+  have := foldl_spec re (insert re) (fun _ => True)
+    (fun n c w _ => insert_spec re n c w) cs SNode.top wf_top (fun _ _ => trivial)
   refine ⟨this.1, fun v => ?_⟩
   rw [this.2 v]
   exact ⟨fun h => h.2, fun h => ⟨den_top re v, h⟩⟩
@@ -854,13 +832,13 @@ theorem settled_insertBasic (re : Bytes → Bytes → Bool) (n : SNode) (c : Con
     settled (insertBasic re n c) := by
   cases c with
   | atom a => exact settled_insertAtom re n a
-  | type k =>
-    show settled (insertType re n k)
+  | type t =>
+    show settled (insertType re n t.kind)
     unfold insertType
     simp only
     split
-    · exact settled_updateKind n k h
-    · exact settled_recheck re _ (settled_updateKind n k h)
+    · exact settled_updateKind n _ h
+    · exact settled_recheck re _ (settled_updateKind n _ h)
   | bound b =>
     show settled (insertBound re n b)
     unfold insertBound
@@ -883,7 +861,7 @@ theorem settled_insert (re : Bytes → Bytes → Bool) (n : SNode) (c : Constrai
   cases c with
   | range r => exact settled_foldl (insertBasic re) (settled_insertBasic re) r.expand n h
   | atom a => exact settled_insertBasic re n (.atom a) h
-  | type k => exact settled_insertBasic re n (.type k) h
+  | type t => exact settled_insertBasic re n (.type t) h
   | bound b => exact settled_insertBasic re n (.bound b) h
 
 theorem settled_of_mem (re : Bytes → Bytes → Bool) (a : Atom) (cs : List Constraint) (n : SNode)
@@ -899,9 +877,9 @@ theorem settled_of_mem (re : Bytes → Bytes → Bool) (a : Atom) (cs : List Con
 /-! ### the property theorems (statements are repeated in `Props/C03.lean`) -/
 
 theorem accept_iff (re : Bytes → Bytes → Bool) (cs : List Constraint) (a : Atom)
-    (hreg : Regular cs) (ha : Constraint.atom a ∈ cs) :
+    (ha : Constraint.atom a ∈ cs) :
     accepts (evalS re cs) a ↔ Sat re cs a := by
-  obtain ⟨hwf, hden⟩ := fold_den re cs hreg
+  obtain ⟨hwf, hden⟩ := fold_den re cs
   have hfin := finalize_spec re _ hwf
   have hset := settled_of_mem re a cs SNode.top ha
   unfold evalS accepts
@@ -924,20 +902,122 @@ theorem accept_iff (re : Bytes → Bytes → Bool) (cs : List Constraint) (a : A
       · rw [hfin] at h; cases h
       · have := hd.2.1; rw [h, Kind.has_zero] at this; cases this
 
-theorem bottom_sound (re : Bytes → Bytes → Bool) (cs : List Constraint) (hreg : Regular cs)
+theorem bottom_sound (re : Bytes → Bytes → Bool) (cs : List Constraint)
     (h : evalS re cs = .bottom) : ∀ a, ¬ Sat re cs a := by
-  obtain ⟨hwf, hden⟩ := fold_den re cs hreg
+  obtain ⟨hwf, hden⟩ := fold_den re cs
   have hfin := finalize_spec re _ hwf
   unfold evalS at h
   rw [h] at hfin
   intro a hs; exact hfin a ((hden a).2 hs)
 
-theorem pinned (re : Bytes → Bytes → Bool) (cs : List Constraint) (hreg : Regular cs) (b : Atom)
+theorem pinned (re : Bytes → Bytes → Bool) (cs : List Constraint) (b : Atom)
     (h : evalS re cs = .atom b) : Sat re cs b ∧ ∀ a, Sat re cs a → a.same b = true := by
-  obtain ⟨hwf, hden⟩ := fold_den re cs hreg
+  obtain ⟨hwf, hden⟩ := fold_den re cs
   have hfin := finalize_spec re _ hwf
   unfold evalS at h
   rw [h] at hfin
   exact ⟨(hden b).1 hfin.1, fun a hs => hfin.2 a ((hden a).2 hs)⟩
+
+/-! ### the residual keeps the denotation (`getValidators`) -/
+
+theorem ite_X_both_or {c : Prop} [Decidable c] :
+    (if c then Outcome.keepX else Outcome.both) = .keepX ∨
+    (if c then Outcome.keepX else Outcome.both) = .both := by
+  by_cases h : c <;> simp [h]
+
+/-- an ordering bound against a `!=`: `SimplifyBounds` returns the ordering bound or nil -/
+theorem ord_vs_ne (re : Bytes → Bytes → Bool) (k : Kind) (u c : Bound) (hu : isOrd u.op = true)
+    (hc : c.op = .ne) :
+    simplifyBounds re k u c = .keepX ∨ simplifyBounds re k u c = .both := by
+  obtain ⟨uop, a⟩ := u
+  obtain ⟨cop, b⟩ := c
+  simp only at hc; subst hc
+  cases uop <;> simp [isOrd] at hu <;> simp [simplifyBounds, opInfo, simplifyNe] <;> exact ite_X_both_or
+
+theorem finalize_residual (re : Bytes → Bytes → Bool) (n : SNode) (k : Kind) (bs : List Bound)
+    (h : finalize re n = .residual k bs) :
+    n.err = false ∧ n.scalar = none ∧ k = n.kind ∧ bs = residualBounds re n := by
+  unfold finalize at h
+  by_cases herr : n.err = true
+  · rw [if_pos herr] at h; cases h
+  · rw [if_neg herr] at h
+    cases hs : n.scalar with
+    | some s => simp only [hs] at h; split at h <;> cases h
+    | none =>
+      simp only [hs] at h
+      cases h
+      exact ⟨by simpa using herr, rfl, rfl, rfl⟩
+
+theorem mem_residual (re : Bytes → Bytes → Bool) (n : SNode) (b : Bound) (h : b ∈ residualBounds re n) :
+    b ∈ n.bounds := by
+  unfold residualBounds at h
+  rcases List.mem_append.1 h with h | h
+  · rcases List.mem_append.1 h with h | h
+    · exact mem_lower (by simpa using h)
+    · exact mem_upper (by simpa using h)
+  · exact mem_checks (List.mem_filter.1 h).1
+
+theorem residual_den (re : Bytes → Bytes → Bool) (n : SNode) (hwf : WF n) (he : n.err = false)
+    (hs : n.scalar = none) (v : Atom) :
+    den re n v ↔ (Kind.has n.kind v = true ∧ ∀ b ∈ residualBounds re n, satBound re v b = true) := by
+  constructor
+  · intro h
+    refine ⟨h.2.1, fun b hb => ?_⟩
+    have hb' := mem_residual re n b hb
+    simp only [satBound, Bool.and_eq_true]
+    exact ⟨hwf.admits h.2.1 hb', den_bounds h hb'⟩
+  · rintro ⟨hk, hall⟩
+    have holds : ∀ b ∈ residualBounds re n, boundHolds re b v = true := by
+      intro b hb
+      have := hall b hb
+      simp only [satBound, Bool.and_eq_true] at this; exact this.2
+    have hl : ∀ b, n.lower = some b → boundHolds re b v = true := by
+      intro b hb; apply holds
+      unfold residualBounds
+      exact List.mem_append.2 (Or.inl (List.mem_append.2 (Or.inl (by simp [hb]))))
+    have hu : ∀ b, n.upper = some b → boundHolds re b v = true := by
+      intro b hb; apply holds
+      unfold residualBounds
+      exact List.mem_append.2 (Or.inl (List.mem_append.2 (Or.inr (by simp [hb]))))
+    refine ⟨he, hk, (fun s h => by rw [hs] at h; cases h), hl, hu, ?_⟩
+    intro c hc
+    -- either kept, or a `!=` implied by the upper / lower bound
+    by_cases hkeep : (!(c.op == .ne &&
+        ((match n.upper with | some u => simplifyBounds re n.kind u c != .both | none => false) ||
+         (match n.lower with | some l => simplifyBounds re n.kind l c != .both | none => false)))) = true
+    · apply holds
+      unfold residualBounds
+      exact List.mem_append.2 (Or.inr (List.mem_filter.2 ⟨hc, hkeep⟩))
+    · simp only [Bool.not_eq_true', Bool.not_eq_false, Bool.and_eq_true, beq_iff_eq,
+        Bool.or_eq_true] at hkeep
+      obtain ⟨hne, hdrop⟩ := hkeep
+      have hadc : boundAdmits c v = true := hwf.admits hk (mem_checks hc)
+      have imp : ∀ u, u ∈ n.bounds → isOrd u.op = true → (simplifyBounds re n.kind u c != .both) = true →
+          boundHolds re u v = true → boundHolds re c v = true := by
+        intro u hub huo hnb huh
+        have hsound := simplify_sound re n.kind u c v (hwf.admits hk hub) hadc hk
+        rcases ord_vs_ne re n.kind u c huo hne with h | h
+        · rw [h] at hsound; exact hsound huh
+        · rw [h] at hnb; simp at hnb
+      rcases hdrop with hd | hd
+      · cases hup : n.upper with
+        | none => rw [hup] at hd; cases hd
+        | some u =>
+          rw [hup] at hd
+          exact imp u (mem_upper hup) (isOrd_of_upper _ (hwf.upper u hup)) hd (hu u hup)
+      · cases hlo : n.lower with
+        | none => rw [hlo] at hd; cases hd
+        | some l =>
+          rw [hlo] at hd
+          exact imp l (mem_lower hlo) (isOrd_of_lower _ (hwf.lower l hlo)) hd (hl l hlo)
+
+/-- A non-concrete result denotes exactly the atoms that satisfy every conjunct. -/
+theorem residual_exact (re : Bytes → Bytes → Bool) (cs : List Constraint) (k : Kind) (bs : List Bound)
+    (h : evalS re cs = .residual k bs) (a : Atom) :
+    Sat re cs a ↔ (Kind.has k a = true ∧ ∀ b ∈ bs, satBound re a b = true) := by
+  obtain ⟨hwf, hden⟩ := fold_den re cs
+  unfold evalS at h
+  obtain ⟨he, hs, hk, hb⟩ := finalize_residual re _ k bs h
+  rw [← hden a, residual_den re _ hwf he hs a, hk, hb]
 
 end CueVerif.Scalar
